@@ -378,6 +378,9 @@ pub fn hand_rows() -> Vec<(&'static str, Vec<[f32; 4]>)> {
         ("const2", vec![[1.5; 4]; 2]),
         ("const4", vec![[-2.0; 4]; 4]),
         ("constrow3", vec![[1.0; 4], [0.0, 2.0, -1.0, 0.5], [3.0; 4]]),
+        // an uninformative position in the MIDDLE of an informative motif (equal counts in one column)
+        ("midconst4", vec![[0.0, 1.0, 2.0, 3.0], [2.0; 4], [1.0, -1.0, 0.5, 0.0], [0.25, 1.5, -2.0, 0.7]]),
+        ("midconst6", vec![[1.2, -0.8, 0.3, -2.1], [0.9, 0.1, -1.4, -0.2], [0.0; 4], [-0.6, 1.1, 0.2, -1.9], [0.4, -2.3, 1.0, 0.1], [-1.0, 0.8, 0.6, -0.3]]),
         // row minima of the form -x.x1: the per-row offsets at granularity g/10 differ from ten times
         // those at g by 9 units per row (exercises the window re-centring of approximate_score)
         ("drift4", vec![[-0.11, 0.3, 0.5, 1.0], [-1.21, 0.0, 0.2, 0.4], [-0.31, 0.1, 0.5, 0.0], [-2.11, 1.0, 0.3, 0.5]]),
